@@ -6,6 +6,7 @@ import (
 	"fmt"
 	"io"
 	"math"
+	"slices"
 	"strings"
 
 	"github.com/remieven/ysgo/internal/container"
@@ -131,7 +132,7 @@ func (dr *DialogueRunner) Next(choice int) (*DialogueElement, error) {
 			Node: dr.currentNode,
 			Line: &Line{
 				ParseResult: *markupResult,
-				Tags:        nextStatement.LineStatement.Tags,
+				Tags:        slices.Clone(nextStatement.LineStatement.Tags), // the element is the host's: not the tree's own slice
 			},
 		}, nil
 	case nextStatement.ShortcutOptionStatement != nil:
@@ -157,7 +158,7 @@ func (dr *DialogueRunner) Next(choice int) (*DialogueElement, error) {
 			options = append(options, DialogueOption{
 				Line: &Line{
 					ParseResult: *markupResult,
-					Tags:        option.LineStatement.Tags,
+					Tags:        slices.Clone(option.LineStatement.Tags),
 				},
 				Disabled: disabled,
 			})
